@@ -66,26 +66,27 @@ def sync_tree(src, dst, skip=()):
 
 # (file, exact original line(s), replacement). Each original must occur
 # exactly once in the file.
-REWRITES = [
-    ("thread.rs",
-     "use std::sync::{Arc, Condvar, Mutex, MutexGuard};",
-     "use mcshim::sync::{Arc, Condvar, Mutex, MutexGuard};"),
-    ("thread.rs",
-     "use std::thread::{self, ThreadId};",
-     "use mcshim::thread::{self, ThreadId};"),
-    ("thread.rs",
-     "use std::time::{Duration, Instant};",
-     "use mcshim::time::{Duration, Instant};"),
-    ("server/mod.rs",
-     "use std::sync::{Arc, RwLock};",
-     "use mcshim::sync::{Arc, RwLock};"),
-    ("server/rrl.rs",
-     "use std::sync::Mutex;",
-     "use mcshim::sync::Mutex;"),
-    ("server/rrl.rs",
-     "use std::time::{Duration, Instant};",
-     "use mcshim::time::{Duration, Instant};"),
+# Import redirections. For each listed file, every top-level `use std::<module>
+# ...;` line of the listed modules is pointed at the shim instead; at least one
+# such line must exist per (file, module), and every imported item must be one
+# the shim provides - so a refactor that merely changes the import list (adds
+# MutexGuard, say) is followed, while an import the shim cannot serve stops
+# the build as a machinery error. Function bodies are never touched.
+REDIRECTS = [
+    ("thread.rs", ["sync", "thread", "time"]),
+    ("server/mod.rs", ["sync"]),
+    ("server/rrl.rs", ["sync", "time"]),
 ]
+
+SHIM_ITEMS = {
+    "sync": {"Arc", "Weak", "Mutex", "MutexGuard", "RwLock", "RwLockReadGuard", "RwLockWriteGuard", "Condvar", "WaitTimeoutResult",
+             "LockResult", "PoisonError", "TryLockError", "TryLockResult"},
+    "thread": {"self", "ThreadId", "Thread", "JoinHandle", "Builder", "spawn", "current", "panicking", "yield_now"},
+    "time": {"Duration", "Instant"},
+}
+
+# Exact-text rewrites (each original must occur exactly once).
+REWRITES = []
 
 # Appended to the end of a file: access shims for private items (called from
 # inside their own module, so nothing is made public in the original code).
@@ -100,6 +101,7 @@ def load_io_seams():
         g = {}
         exec(compile(open(p).read(), p, "exec"), g)
         REWRITES.extend(g.get("REWRITES", []))
+        REDIRECTS.extend(g.get("REDIRECTS", []))
         APPENDS.update(g.get("APPENDS", {}))
 
 
@@ -174,6 +176,22 @@ def main():
         for fn in fns:
             r = os.path.normpath(os.path.join(rel, fn))
             files[r] = open(os.path.join(root, fn), encoding="utf-8").read()
+    for (f, modules) in REDIRECTS:
+        if f not in files:
+            die("seam moved: %s does not exist" % f)
+        for mod in modules:
+            pat = re.compile(r"^use std::%s(::(.+))?;[ \t]*$" % mod, re.M)
+            hits = list(pat.finditer(files[f]))
+            if not hits:
+                die("seam moved: %s has no `use std::%s...;` line" % (f, mod))
+            for m in hits:
+                items = m.group(2) or "self"
+                names = [x.strip() for x in items.strip("{}").split(",") if x.strip()]
+                for n in names:
+                    base = n.split(" as ")[0].strip()
+                    if base not in SHIM_ITEMS[mod]:
+                        die("seam moved: %s imports std::%s::%s, which the shim does not provide" % (f, mod, base))
+            files[f] = pat.sub(lambda m: m.group(0).replace("use std::%s" % mod, "use mcshim::%s" % mod, 1), files[f])
     for (f, old, new) in REWRITES:
         if f not in files:
             die("seam moved: %s does not exist" % f)
